@@ -407,5 +407,5 @@ def origin_str(o):
     else:
         s = ":".join(str(x) for x in root[:2])
     if proj:
-        s += "." + ".".join(proj)
+        s += "." + ".".join(str(x) for x in proj)
     return s
